@@ -23,17 +23,26 @@ def make_repo(repo, patch):
     p = subprocess.run(["patch", "-p1", "-s", "-i", patch], cwd=repo, capture_output=True, text=True)
     return None if p.returncode == 0 else "patch does not apply: " + (p.stdout + p.stderr)[-300:]
 
-seeds = sys.argv[1:] or sorted(os.path.basename(os.path.dirname(p)) for p in glob.glob(os.path.join(ROOT, "seeded", "*", "patch.diff")) + glob.glob(os.path.join(ROOT, "selftest", "*", "patch.diff")) + glob.glob(os.path.join(ROOT, "benign", "*", "patch.diff")))
-d = tempfile.mkdtemp(prefix="seedfacts-")
-try:
-    repo = os.path.join(d, "repo")
-    for s in seeds:
-        out = os.path.join(check.CACHE, "seedfacts", s)
-        shutil.rmtree(out, ignore_errors=True)
-        err = make_repo(repo, None if s == "base" else next(p_ for p_ in (os.path.join(ROOT, "seeded", s, "patch.diff"), os.path.join(ROOT, "selftest", s, "patch.diff"), os.path.join(ROOT, "benign", s, "patch.diff")) if os.path.exists(p_)))
-        if err: print(s, err); continue
-        with check.locked("extract"):
-            ok, err = check.extract(repo, out, os.path.join(check.CACHE, "target-seed"))
-        print(s, "ok" if ok else "FAILED " + err[-500:])
-finally:
-    shutil.rmtree(d, ignore_errors=True)
+args = sys.argv[1:]
+JOBS = 1
+if args and args[0].startswith("-j"): JOBS = int(args[0][2:]); args = args[1:]
+seeds = args or sorted(os.path.basename(os.path.dirname(p)) for p in glob.glob(os.path.join(ROOT, "seeded", "*", "patch.diff")) + glob.glob(os.path.join(ROOT, "selftest", "*", "patch.diff")) + glob.glob(os.path.join(ROOT, "benign", "*", "patch.diff")))
+
+def work(k, mine):
+    d = tempfile.mkdtemp(prefix="seedfacts-")
+    try:
+        repo = os.path.join(d, "repo")
+        for s in mine:
+            out = os.path.join(check.CACHE, "seedfacts", s)
+            shutil.rmtree(out, ignore_errors=True)
+            err = make_repo(repo, None if s == "base" else next(p_ for p_ in sum(([os.path.join(ROOT, k_, s, "patch.current.diff"), os.path.join(ROOT, k_, s, "patch.diff")] for k_ in ("seeded", "selftest", "benign")), []) if os.path.exists(p_)))
+            if err: print(s, err, flush=True); continue
+            with check.locked(f"extract-seed{k}"):
+                ok, err = check.extract(repo, out, os.path.join(check.CACHE, f"target-seed{k}"))
+            print(s, "ok" if ok else "FAILED " + err[-500:], flush=True)
+    finally:
+        shutil.rmtree(d, ignore_errors=True)
+
+import concurrent.futures as cf
+with cf.ThreadPoolExecutor(JOBS) as ex:
+    list(ex.map(lambda k: work(k, seeds[k::JOBS]), range(JOBS)))
